@@ -4,9 +4,17 @@ package generic
 
 import (
 	"strings"
+	"sync"
 
 	"github.com/ohler55/slip"
 )
+
+// gfCreateMu makes looking for a generic function and creating a missing one
+// a single step. Without it two routines that add the first methods of a
+// generic function at the same time both create the function, the function
+// registered last replaces the other one and the methods of the other are
+// lost.
+var gfCreateMu sync.Mutex
 
 func defDefmethod() {
 	slip.Define(
@@ -293,7 +301,20 @@ func defGenericMethod(s *slip.Scope, fname slip.Symbol, args slip.List, aux *Aux
 		slip.TypePanic(s, depth, "specialize-lambda-list", args[0], "list")
 	}
 	if aux == nil {
-		aux = newGfAux(s, fname, ll, depth)
+		gfCreateMu.Lock()
+		// Look again, another routine may have created the generic function
+		// since the caller looked.
+		if fi := slip.FindFunc(string(fname)); fi != nil && !fi.Undefined() {
+			aux, _ = fi.Aux.(*Aux)
+		}
+		if aux == nil {
+			func() {
+				defer gfCreateMu.Unlock()
+				aux = newGfAux(s, fname, ll, depth)
+			}()
+		} else {
+			gfCreateMu.Unlock()
+		}
 	}
 	// Set the function docs for the method mostly for a call to describe.
 	fd := slip.FuncDoc{
